@@ -113,6 +113,14 @@ fn main() {
                     threads,
                 },
             );
+            if property == "C01" || property == "C04" {
+                let n = if thorough { 6000 } else { 160 };
+                let prop: &'static str = if property == "C01" { "C01" } else { "C04" };
+                broker_run::run_concurrent(&mut rep, prop, n, 4);
+                rep.floor("concurrent_histories", if thorough { 3000 } else { 100 });
+                rep.floor("concurrent_view_reads", 5000);
+                rep.assumptions.push("the concurrent leg calls MemBrokerService's methods from several tasks of a multi-thread runtime (what concurrent HTTP requests do); a single reader task observes the served views, so its observations are totally ordered".to_string());
+            }
             rep.floor("histories", if thorough { 400 } else { 60 });
             match property.as_str() {
                 "C01" => rep.floor("cluster_views_nontrivial", 200),
